@@ -176,7 +176,9 @@ func (o *Optimizer) buildFinalPlan(s Storage, fp Plan, stmt *SelectStmt) (FinalP
 				break
 			}
 		}
-		hasAggr = allInSelect
+		if allInSelect {
+			hasAggr = true
+		}
 	}
 	var ffp FinalPlan
 	if !hasAggr && stmt.GroupBy != nil && len(stmt.GroupBy.Fields) > 0 {
